@@ -1,0 +1,14 @@
+//go:build verif
+
+// Contracts for the govc verifier (/verif). Comment-only; compiled only with -tags verif.
+// Vocabulary (wfConv, builderUntouched, ...) is defined in /verif/specs/converter.ghost.
+
+package converter
+
+//@ func (*DomConverter).visitElementNodeHandler(node)
+//@   requires wfConv(dc) && node != nil && inheap(node) && node.Type == 3 && (node.Parent == nil || node.Parent.Type == 3)
+//@   requires !pendingNode(dc, node) && inTreeOf(as(dc.builder, *webdoc.WebDocumentBuilder).textBuilder, node)
+//@   ensures [C01] wfConv(dc)
+//@   ensures [C04] #invisible-skipped implies(!old(domutil.IsProbablyVisible(node)), !result && builderUntouched())
+//@   loop 0 invariant wfConv(dc) && node.Type == 3 && (node.Parent == nil || node.Parent.Type == 3) && inheap(node)
+//@   loop 0 invariant inTreeOf(as(dc.builder, *webdoc.WebDocumentBuilder).textBuilder, node) && !pendingNode(dc, node)
